@@ -116,3 +116,12 @@ def position(t):
             return coll, ("step", rk[1], rk[2])
         return coll, ("term", key)
     return None
+
+
+def leaves(l):
+    """Leaves of a layout."""
+    if l is None:
+        return []
+    if l[0] == "pair":
+        return leaves(l[1]) + leaves(l[2])
+    return [l]
